@@ -673,3 +673,143 @@ pub fn gen_forest(rng: &mut Rng, cat: &mut Catalogue, cfg: &GenCfg) -> Forest {
     }
     f
 }
+
+// ------------------------------------------------------------------------------------------ migrating pairs (C15)
+
+#[derive(Clone, Debug)]
+pub struct MigPair {
+    /// class that declares the legacy property
+    pub owner: String,
+    /// a class to instantiate (the owner or a well-known subclass)
+    pub class: String,
+    pub legacy: String,
+    pub new_name: String,
+    /// None = Enum
+    pub legacy_ty: Option<VariantType>,
+    pub enum_name: Option<String>,
+}
+
+fn inherits(db: &ReflectionDatabase, class: &str, ancestor: &str) -> bool {
+    let mut cur = db.classes.get(class);
+    let mut guard = 0;
+    while let Some(c) = cur {
+        if c.name == ancestor {
+            return true;
+        }
+        guard += 1;
+        if guard > 64 {
+            break;
+        }
+        cur = c.superclass.as_ref().and_then(|s| db.classes.get(s.as_ref()));
+    }
+    false
+}
+
+/// every property of the database whose serialization is Migrate, with a class to instantiate
+pub fn migrate_pairs(cat: &Catalogue) -> Vec<MigPair> {
+    let mut out = Vec::new();
+    for cn in &cat.class_names {
+        let c = &cat.db.classes[cn.as_str()];
+        let mut names: Vec<&str> = c.properties.keys().map(|k| k.as_ref()).collect();
+        names.sort();
+        for pn in names {
+            let p = &c.properties[pn];
+            if let PropertyKind::Canonical { serialization: PropertySerialization::Migrate(m) } = &p.kind {
+                let class = HOT_CLASSES
+                    .iter()
+                    .find(|h| inherits(cat.db, h, cn))
+                    .map(|h| h.to_string())
+                    .unwrap_or_else(|| cn.clone());
+                let (legacy_ty, enum_name) = match &p.data_type {
+                    DataType::Value(t) => (Some(*t), None),
+                    DataType::Enum(e) => (None, Some(e.to_string())),
+                    _ => continue,
+                };
+                out.push(MigPair { owner: cn.clone(), class, legacy: pn.to_string(), new_name: m.new_property_name.clone(), legacy_ty, enum_name });
+            }
+        }
+    }
+    out
+}
+
+/// all legacy values of a pair, in a fixed order (every item of the enum, every BrickColor number, ...)
+pub fn legacy_values(cat: &Catalogue, p: &MigPair) -> Vec<Variant> {
+    match (&p.legacy_ty, &p.enum_name) {
+        (None, Some(e)) => {
+            let mut v: Vec<u32> = cat.db.enums.get(e.as_str()).map(|d| d.items.values().copied().collect()).unwrap_or_default();
+            v.sort();
+            v.dedup();
+            v.into_iter().map(|x| Variant::Enum(Enum::from_u32(x))).collect()
+        }
+        (Some(VariantType::BrickColor), _) => val::brick_numbers().into_iter().filter_map(BrickColor::from_number).map(Variant::BrickColor).collect(),
+        (Some(VariantType::Bool), _) => vec![Variant::Bool(false), Variant::Bool(true)],
+        (Some(VariantType::ContentId), _) => vec![
+            Variant::ContentId(ContentId::new()),
+            Variant::ContentId("rbxassetid://12345".into()),
+            Variant::ContentId("a".into()),
+            Variant::ContentId("日本語 \u{0} x".into()),
+        ],
+        (Some(t), _) => neutral_like(*t).into_iter().collect(),
+        _ => Vec::new(),
+    }
+}
+
+fn neutral_like(t: VariantType) -> Option<Variant> {
+    let mut r = Rng::new(7);
+    Some(val::gen_value(&mut r, t, 0))
+}
+
+/// same-class sets exercising one Migrate pair: each instance carries the legacy spelling only, the new
+/// property only, both, or neither; `k` walks through all legacy values
+pub fn gen_migrating(rng: &mut Rng, cat: &mut Catalogue, k: u64) -> Forest {
+    let pairs = migrate_pairs(cat);
+    let mut f = Forest::default();
+    f.opts.push(("migrating".into(), "1".into()));
+    if pairs.is_empty() {
+        return f;
+    }
+    let pair = pairs[(k % pairs.len() as u64) as usize].clone();
+    let values = legacy_values(cat, &pair);
+    let specs = cat.props_of(&pair.class).clone();
+    let new_spec = specs.iter().find(|s| s.name == pair.new_name).cloned();
+    let n = rng.range(1, 3);
+    for i in 1..=n {
+        let mut props: Vec<(String, Variant)> = Vec::new();
+        let mode = if i == 1 { (k / pairs.len() as u64) % 3 } else { rng.below(4) };
+        let lv = if values.is_empty() { None } else { Some(values[((k / pairs.len() as u64 / 3 + i - 1) % values.len() as u64) as usize].clone()) };
+        let nv = new_spec.as_ref().map(|s| match gen_prop_value(rng, s.ty, n) {
+            Variant::EnumItem(e) => Variant::Enum(Enum::from_u32(e.value)), // not writable without a database
+            v => v,
+        });
+        match mode {
+            0 => {
+                if let Some(v) = lv {
+                    props.push((pair.legacy.clone(), v));
+                }
+            }
+            1 => {
+                if let Some(v) = nv {
+                    props.push((pair.new_name.clone(), v));
+                }
+            }
+            2 => {
+                let (a, b) = (lv.map(|v| (pair.legacy.clone(), v)), nv.map(|v| (pair.new_name.clone(), v)));
+                let mut both: Vec<(String, Variant)> = a.into_iter().chain(b.into_iter()).collect();
+                if rng.chance(50) {
+                    both.reverse();
+                }
+                props.extend(both);
+            }
+            _ => {}
+        }
+        if rng.chance(40) {
+            props.push(("Archivable".to_string(), Variant::Bool(rng.chance(50))));
+        }
+        f.nodes.push(Node { label: i, parent: 0, class: pair.class.clone(), name: gen_name(rng), props });
+    }
+    f.roots = f.nodes.iter().map(|x| x.label).collect();
+    if rng.chance(30) {
+        f.roots.reverse();
+    }
+    f
+}
